@@ -646,8 +646,18 @@ pub fn case_named(ctx: &mut Ctx, case: &Value) {
             }
         }
     }
-    // round trip
+    // round trip (through both import functions)
     let named = drain_named(&strat);
+    match catch_unwind(AssertUnwindSafe(|| game.from_named_eq(named.clone()).map(|b| drain_named(&b)))) {
+        Err(_) => ctx.fail_prop(case, "importing the named view with from_named_eq panics".to_string()),
+        Ok(Err(e)) => ctx.fail_prop(case, format!("importing the named view with from_named_eq fails: {:?}", e)),
+        Ok(Ok(again)) => {
+            let d = named_diff(&named[0], &again[0]).max(named_diff(&named[1], &again[1]));
+            if !(d <= 1e-12) {
+                ctx.fail_prop(case, format!("round trip through from_named_eq changes a probability by {:e}", d));
+            }
+        }
+    }
     match game.from_named(named.clone()) {
         Err(e) => ctx.fail_prop(case, format!("importing the named view fails: {:?}", e)),
         Ok(back) => {
@@ -1087,6 +1097,11 @@ pub fn case_truncate(ctx: &mut Ctx, case: &Value) {
                 for (x, q) in m {
                     let want = if *q > h { q / tot } else { 0.0 };
                     let got = am.get(x).cloned().unwrap_or(0.0);
+                    // "exactly those actions": the support is exact, however small the numbers
+                    if (*q > h) != (got > 0.0) {
+                        ctx.fail_prop(case, format!("infoset {} action {}: probability {:e} before, {:e} after truncation at {:e} (an action stays exactly when its probability exceeds the threshold)", l, x, q, got, h));
+                        break;
+                    }
                     if !close_tol(want, got, 1e-12) {
                         ctx.fail_prop(case, format!("infoset {} action {}: {:e} after truncation, expected {:e}", l, x, got, want));
                         break;
@@ -1155,7 +1170,9 @@ pub fn c18(ctx: &mut Ctx) -> String {
         let beh = beh_of_named(&prof);
         let mut present: Vec<f64> = beh.iter().flat_map(|m| m.values().flat_map(|a| a.values().cloned())).collect();
         present.retain(|x| *x > 0.0);
-        let h = match ctx.rng.below(10) {
+        let h = match ctx.rng.below(12) {
+            10 => 1e-3,
+            11 => 1e-10,
             0 => -1.0,
             1 => 0.0,
             2 => 0.5,
